@@ -1,6 +1,8 @@
 import AFProofs.Lemmas.CompSpec
 import AFProofs.Lemmas.NameOrd
 import AFModel.FloatOps
+import AFProofs.Lemmas.NameKey
+import AFProofs.Lemmas.Build
 
 /-!
 # C01 — parameter vector ↔ model instance correspondence
@@ -457,5 +459,148 @@ theorem tuple_members_sorted_by_position (ρ : Nat → Inst Float) (attrs : List
     ∃ ms, instW floatOps ρ (.tuple attrs) = .tup ms ∧ ms.Perm (instTupleAttrs floatOps ρ attrs) ∧
       ms.Pairwise (fun a b => posLe a.1 b.1 = true) :=
   tuple_members_sorted floatOps ρ attrs posLe_total posLe_trans
+
+end AF.C01
+
+/-! ## the member order, by number, for every number of members
+
+`posLeL` is `_position_key` on character lists (AFModel/NameKey.lean) – the order the C01 driver runs
+and, on every run, compares with the `splitOn` rendering `posLe` and with the order the real
+`TuplePrior.value_for_arguments` places members in. -/
+
+namespace AF.C01
+open AF
+
+/-- the member order is total and transitive (theorems, so the sorting theorems apply to it) -/
+theorem member_order_total_and_transitive :
+    (∀ a b, posLeL a b = true ∨ posLeL b a = true) ∧
+    (∀ a b c, posLeL a b = true → posLeL b c = true → posLeL a c = true) :=
+  ⟨posLeL_total, posLeL_trans⟩
+
+/-- **`name_i` is ordered by the number `i`**, whatever the number of digits: no bound on the arity -/
+theorem member_names_ordered_by_number (name : String) (i j : Nat) :
+    posLeL (memberName name i) (memberName name j) = decide (i ≤ j) :=
+  posLeL_memberName name i j
+
+example : posLeL (memberName "p" 2) (memberName "p" 10) = true ∧
+    posLeL (memberName "p" 100) (memberName "p" 99) = false := by
+  rw [member_names_ordered_by_number, member_names_ordered_by_number]; decide
+
+/-- the sorting theorem for the order the driver executes: hypotheses discharged -/
+theorem tuple_members_sorted_by_number {V : Type} [Inhabited V] (ops : Ops V) (hle : ops.nameLe = posLeL)
+    (ρ : Nat → Inst V) (attrs : List (String × Node V)) :
+    ∃ ms, instW ops ρ (.tuple attrs) = .tup ms ∧ ms.Perm (instTupleAttrs ops ρ attrs) ∧
+      ms.Pairwise (fun a b => posLeL a.1 b.1 = true) := by
+  have := tuple_members_sorted ops ρ attrs (by rw [hle]; exact posLeL_total) (by rw [hle]; exact posLeL_trans)
+  simpa [hle] using this
+
+example : floatOpsL.nameLe = posLeL := rfl
+
+/-! ## construction from the class signature (`AFModel/Build.lean`) -/
+
+/-- **Tuple parameters are created and placed in position order.** `make_tuple_prior(name, k)` at
+prior counter `n` holds members `name_0 … name_{k-1}` with ids `n … n+k-1`, and the tuple built from
+any arguments is the members' values in exactly that order – for every `k`. -/
+theorem tuple_created_and_placed_in_position_order {V : Type} [Inhabited V] (ops : Ops V)
+    (hle : ops.nameLe = posLeL) (ρ : Nat → Inst V) (name : String) (k n : Nat) :
+    (walk (mkTuple (V := V) name k n)) = (List.range k).map (fun i => ([memberName name i], n + i)) ∧
+    instW ops ρ (mkTuple name k n) = .tup ((List.range k).map (fun i => (memberName name i, ρ (n + i)))) := by
+  constructor
+  · simp only [mkTuple, walk]
+    exact walkAttrs_priors (memberName name) (n + ·) (List.range k)
+  · simp only [mkTuple]
+    have hattrs := instTupleAttrs_priors ops ρ (memberName name) (n + ·) (List.range k)
+    have := tuple_in_position_order ops ρ
+      ((List.range k).map (fun i => (memberName name i, Node.prior (n + i)))) (by
+        rw [hattrs, List.pairwise_map]
+        refine List.Pairwise.imp ?_ List.pairwise_lt_range
+        intro i j hij
+        rw [hle, posLeL_memberName]
+        exact decide_eq_true (Nat.le_of_lt hij))
+    rw [this, hattrs]
+
+/-- a 12-tuple with the driver's member order: the hypothesis is met by `rfl` -/
+example : instW ({ natOps with nameLe := posLeL }) (fun i => .num (i * 10)) (mkTuple "p" 12 5)
+    = .tup ((List.range 12).map (fun i => (memberName "p" i, .num ((5 + i) * 10)))) :=
+  (tuple_created_and_placed_in_position_order { natOps with nameLe := posLeL } rfl
+    (fun i => .num (i * 10)) "p" 12 5).2
+
+/-- **Every constructor argument is addressable at its own name** in the model `Model(cls, **kw)`
+builds (arguments with a string default are no parameters and are not held), whatever the keywords. -/
+theorem ctor_argument_addressable {V : Type} (sig : ClassSig) (kw : List (String × Ov V)) (n : Nat)
+    (a : String) (d : ArgD) (hm : (a, d) ∈ sig.args) (hd : ∀ t, d ≠ .str t) :
+    ∃ x, (mkModel sig kw n).1.at [a] = some x := by
+  have h1 := mkArgs_isSome kw sig.args n a d hm hd
+  have h2 := addExtras_isSome kw _ (mkArgs kw sig.args n).2 a h1
+  have h3 := lookupAttr_append_isSome _
+    (strDefaults sig.args (addExtras kw (mkArgs kw sig.args n).1 (mkArgs kw sig.args n).2).1) a h2
+  obtain ⟨x, hx⟩ := Option.isSome_iff_exists.mp h3
+  exact ⟨x, by simp [mkModel, Node.at, Node.attrs, hx]⟩
+
+/-- **A keyword replaces exactly the named argument**: an object (prior, constant, model, … anything
+but a tuple prior, which later `name_i` keywords may extend) given for constructor argument `a` is what
+the model holds at `a`, whatever the other keywords are. -/
+theorem keyword_replaces_argument {V : Type} (sig : ClassSig) (kw : List (String × Ov V)) (n : Nat)
+    (a : String) (d : ArgD) (x : Node V) (hm : (a, d) ∈ sig.args) (hd : ∀ t, d ≠ .str t)
+    (hk : lookupAttr kw a = some (.node x)) (hx : ∀ ms, x ≠ .tuple ms) :
+    (mkModel sig kw n).1.at [a] = some x := by
+  have h1 := mkArgs_keyword kw a x hk sig.args n d hm hd
+  have h2 := addExtras_of_not_tuple kw _ (mkArgs kw sig.args n).2 a x hx h1
+  have h3 := lookupAttr_append_of_some _
+    (strDefaults sig.args (addExtras kw (mkArgs kw sig.args n).1 (mkArgs kw sig.args n).2).1) a x h2
+  simp [mkModel, Node.at, Node.attrs, h3]
+
+/-- … and then, for a prior given as keyword, the instance built from a vector holds that
+parameter's value at the argument's name -/
+theorem keyword_prior_receives_vector_value {V : Type} [Inhabited V] (ops : Ops V) (sig : ClassSig)
+    (kw : List (String × Ov V)) (n : Nat) (a : String) (d : ArgD) (id : Nat)
+    (hm : (a, d) ∈ sig.args) (hd : ∀ t, d ≠ .str t) (hk : lookupAttr kw a = some (.node (.prior id))) :
+    (mkModel sig kw n).1.at [a] = some (.prior id) :=
+  keyword_replaces_argument sig kw n a d (.prior id) hm hd hk (by intro ms h; cases h)
+
+/- non-vacuity: `Model(T2, r=<prior 3>, pos_5=<prior 4>, extra=2.5)` at counter 10 -/
+def sigT2 : ClassSig := { name := "T2", args := [("pos", .tup 2), ("r", .cfg), ("mode", .str "str:x")] }
+def kwT2 : List (String × Ov Nat) := [("extra", .node (.const 25)), ("r", .node (.prior 3)), ("pos_5", .node (.prior 4))]
+
+example : (mkModel sigT2 kwT2 10).1.at ["r"] = some (.prior 3) :=
+  keyword_replaces_argument sigT2 kwT2 10 "r" .cfg (.prior 3) (by simp [sigT2]) (by intro t h; cases h)
+    (by simp [kwT2, lookupAttr]) (by intro ms h; cases h)
+example : ∃ x, (mkModel sigT2 kwT2 10).1.at ["pos"] = some x :=
+  ctor_argument_addressable sigT2 kwT2 10 "pos" (.tup 2) (by simp [sigT2]) (by intro t h; cases h)
+
+/-! tests (compiler-evaluated): the whole of `mkModel` on the example — the `pos_5` keyword is filed
+inside the tuple prior, the string default reaches the instance, two new priors were made -/
+#guard (mkModel sigT2 kwT2 10).2 == 12
+#guard paths (mkModel sigT2 kwT2 10).1 == [["r"], ["pos", "pos_5"], ["pos", "pos_0"], ["pos", "pos_1"]]
+
+end AF.C01
+
+namespace AF.C01
+open AF
+
+/-- **Parameter order of a class composed from its signature.** `Model(cls)` (no keywords) at prior
+counter `n` holds, in constructor-argument order and depth first (tuple members in position order,
+annotated classes entered), exactly the new prior ids `n, n+1, …` – consecutive, none twice – and so … -/
+theorem fresh_model_ids_consecutive_in_argument_order {V : Type} (c : String) (as : List (String × ArgD)) (n : Nat) :
+    (walk (mkSub (V := V) c as n).1).map (·.2) = List.range' n ((mkSub (V := V) c as n).2 - n)
+      ∧ n ≤ (mkSub (V := V) c as n).2 :=
+  mkSub_walk c as n
+
+/-- … the parameter paths it advertises (`paths`, the order of the vector) are its constructor
+arguments in signature order, depth first: for a freshly composed class, vector order = signature order. -/
+theorem fresh_model_paths_in_argument_order {V : Type} (c : String) (as : List (String × ArgD)) (n : Nat) :
+    pathPriors (mkSub (V := V) c as n).1 = walk (mkSub (V := V) c as n).1 :=
+  paths_mkSub c as n
+
+/- non-vacuity: `Model(Deep)` of harness/vlib.py (`left: Nest(inner: P2, k)`, `right: P1`, `z`) at counter 7 -/
+def sigDeep : List (String × ArgD) :=
+  [("left", .sub "Nest" [("inner", .sub "P2" [("a", .cfg), ("b", .cfg)]), ("k", .cfg)]),
+   ("right", .sub "P1" [("a", .cfg)]), ("z", .cfg)]
+example : (walk (mkSub (V := Nat) "Deep" sigDeep 7).1).map (·.2) = List.range' 7 ((mkSub (V := Nat) "Deep" sigDeep 7).2 - 7) :=
+  (fresh_model_ids_consecutive_in_argument_order "Deep" sigDeep 7).1
+/-! tests (compiler-evaluated): the concrete walk and counter of that example -/
+#guard (walk (mkSub (V := Nat) "Deep" sigDeep 7).1)
+    == [(["left", "inner", "a"], 7), (["left", "inner", "b"], 8), (["left", "k"], 9), (["right", "a"], 10), (["z"], 11)]
+#guard (mkSub (V := Nat) "Deep" sigDeep 7).2 == 12
 
 end AF.C01
